@@ -37,10 +37,11 @@ let init_of_header (hd : string list) : st * sst =
   match hd with
   | [] -> failwith "empty header"
   | base :: layers ->
-    let m0, s0 = (match base with
+    let kind = if String.length base >= 3 then String.sub base 0 3 else base in
+    let m0, s0 = (match kind with
       | "mem" -> Mem [], SEng []
-      | "ldb" | "ldb!" -> Eng (ELdb, []), SEng []
-      | "pbl" | "pbl!" -> Eng (EPbl, []), SEng []
+      | "ldb" -> Eng (ELdb, []), SEng []
+      | "pbl" -> Eng (EPbl, []), SEng []
       | _ -> failwith ("bad base " ^ base)) in
     List.fold_left (fun (m, s) l ->
       if l = "f" then (Flu ([], m), SFlu ([], s))
@@ -78,6 +79,7 @@ let parse_op (t : string list) : pop =
   | ["lnext"; id; n] -> Op (OLNext (nat_of_tok id, nat_of_tok n))
   | ["lrel"; id] -> Op (OLRel (nat_of_tok id))
   | ["init"; d] -> Op (OInit (nat_of_tok d))
+  | ["stat"; h; p] -> Op (OStat (handle_of_tok h, nat_of_tok p))
   | ["reopen"] -> Skip      (* close the engine and reopen the same directory: the map persists *)
   | _ -> failwith ("bad op: " ^ String.concat " " t)
 
@@ -95,6 +97,7 @@ let toks_of_obs (o : obs) : string list =
   | BCompact (Some (lo, hi)) -> ["C"; tok_of_okey lo; tok_of_okey hi]
   | BCompact None -> ["C"; "!"; "!"]
   | BCompactErr ok -> ["E"; if ok then "ok" else "err"]
+  | BStat ok -> ["S"; if ok then "ok" else "err"]
   | BLive (Some l) -> "L" :: string_of_int (List.length l) ::
                       List.concat_map (fun (k, v) -> [tok_of_bytes k; tok_of_bytes v]) l
   | BLive None -> ["L?"]
@@ -105,7 +108,7 @@ let rec take n l = if n <= 0 then ([], l) else match l with [] -> ([], []) | x :
 let next_chunk (impl : string list) : string list * string list =
   match impl with
   | [] -> ([], [])
-  | ("G" | "H" | "N" | "E") :: _ -> take 2 impl
+  | ("G" | "H" | "N" | "E" | "S") :: _ -> take 2 impl
   | "C" :: _ -> take 3 impl
   | "X" :: r -> (["X"], r)
   | ("I" | "L") :: n :: r -> (match int_of_string_opt n with
@@ -226,6 +229,8 @@ and eval_history (inp : string list) (impl : string list) : Drv.verdict =
             | _ -> fail_spec "compact")
          | OECompact _, _ ->
            (match chunk with ["E"; _] -> () | _ -> fail_spec "ecompact")
+         | OStat _, _ ->
+           (match chunk with ["S"; _] -> () | _ -> fail_spec "stat")
          | OLNext _, BLive None -> ()
          | _ ->
            let st = toks_of_obs os in
